@@ -440,6 +440,19 @@ func (p *c14Pool) StartContainer(it arvados.InstanceType, ctr arvados.Container)
 	if _, known := p.liveProcs(u); known {
 		p.bad("C14:S1:start-while-pool-reports-running", fmt.Sprintf("StartContainer(%s) although the pool reports a live process for it", u))
 	}
+	if _, placeholder := p.exited[u]; placeholder {
+		// The pool told this pass that the container's crunch-run has
+		// exited; if that process already changed the container in the API
+		// (Running / Complete -- only processes set these) the container is
+		// not "currently Locked", the queue cache just lags behind.
+		for _, c := range p.q.inner.C14Truth() {
+			if c.UUID == u && (c.State == arvados.ContainerStateRunning || c.State == arvados.ContainerStateComplete) {
+				p.bad("C14:S2:start-after-own-process-exited:api-state-"+string(c.State), fmt.Sprintf(
+					"StartContainer(%s): the pool reports its crunch-run as exited, that process left the container %s in the API, only the queue cache still says Locked", u, c.State))
+			}
+		}
+	}
+	p.evals++
 	if p.passKillTrue[u] {
 		p.bad("C14:S1:start-after-kill-returned-true", fmt.Sprintf("StartContainer(%s) although KillContainer returned true (process still there) earlier in this pass", u))
 	}
